@@ -1,5 +1,5 @@
 (* C02 -- accepted requests are exactly those of the documented grammar, fields verbatim. *)
-From MH Require Import proofs.Grammar_proofs proofs.Impl_proofs.
+From MH Require Import proofs.Grammar_proofs proofs.Grammar_conv proofs.Impl_proofs.
 
 (* a request line is accepted iff it is METHOD SP URI SP VERSION with METHOD and VERSION from the
    (source-tied) tables and a non-empty UTF-8 URI without spaces; the fields are exactly those bytes *)
@@ -56,12 +56,41 @@ Theorem C02_transfer : forall BUF, (2 <= BUF)%nat -> N.of_nat BUF < U32_LIMIT ->
   observe (reads BUF (new_conn pm) evs) = spec_observe (parse_stream BUF pm (concat (chunks evs))).
 Proof. exact reads_whole_stream. Qed.
 
-(* PARTIAL.  Not proved here: the "only if" direction as a single statement (a delivered request
-   implies the stream starts with such an encoding) and the "first offending element" theorem for
-   whole streams.  Their ingredients are proved: the step function is a case analysis on take_line
-   (C04_line_iff), parse_reqline (above) and the header rules (C15); the error of a stream is the
-   error of the first failing step (runT_unfold).  The correspondence run compares the
-   implementation with an independent recogniser of the grammar on every generated stream. *)
+(* the "only if" direction, and the grammar as an equivalence: the first request delivered by the
+   whole-stream parser is x IFF the stream starts with a well-formed encoding of x (first_req skips
+   interim responses; outs_of are the outputs of the run, whether it ends waiting or in an error) *)
+Theorem C02_delivered_wellformed : forall BUF, (2 <= BUF)%nat -> forall L s x,
+  first_req (outs_of (parse_stream BUF L s)) = Some x ->
+  exists rlb rl hs hd body rest,
+    s = rlb ++ CRLF ++ Grammar_proofs.with_crlf hs ++ CRLF ++ body ++ rest /\
+    parse_reqline rlb = Ok rl /\ line_ok BUF rlb /\
+    Forall (fun l => l <> [] /\ line_ok BUF l) hs /\ fold_lines headers_default hs = Ok hd /\
+    h_content_length hd <= L /\ lenN body = h_content_length hd /\
+    x = (rl, hd, delivered_body hd body).
+Proof. exact delivered_wellformed. Qed.
+
+Theorem C02_accept_iff : forall BUF, (2 <= BUF)%nat -> forall L s x,
+  first_req (outs_of (parse_stream BUF L s)) = Some x <->
+  exists rlb rl hs hd body rest,
+    s = rlb ++ CRLF ++ Grammar_proofs.with_crlf hs ++ CRLF ++ body ++ rest /\
+    parse_reqline rlb = Ok rl /\ line_ok BUF rlb /\
+    Forall (fun l => l <> [] /\ line_ok BUF l) hs /\ fold_lines headers_default hs = Ok hd /\
+    h_content_length hd <= L /\ lenN body = h_content_length hd /\
+    x = (rl, hd, delivered_body hd body).
+Proof. exact first_delivery_iff. Qed.
+(* iterating it (C02_wellformed_delivered continues on `rest` with the outputs appended) gives every
+   later delivery; take_line_inv characterises each line of the stream *)
+Theorem C02_line_inversion : forall BUF w l rest,
+  take_line BUF w = LLine l rest ->
+  w = l ++ CRLF ++ rest /\ find_crlf (l ++ [CR]) = None /\ (length l + 2 <= BUF)%nat.
+Proof. exact take_line_inv. Qed.
+
+(* PARTIAL.  Not a single theorem: "the error kind names the first offending element of the whole
+   stream".  Its ingredients are proved: a run stops at the first step that fails (runT_unfold), a
+   step fails exactly as take_line (C04_line_iff), parse_reqline (C02_reqline_precedence) or the
+   header rules (C15) say, and everything before it was delivered (C02_wellformed_delivered).  The
+   correspondence run compares the implementation with an independent recogniser of the grammar,
+   including the error kind, on every generated stream. *)
 
 Example C02_ex :
   match parse_stream 1024 51200 (B"PUT /x HTTP/1.1" ++ CRLF ++ B"Content-Length: 2" ++ CRLF ++ CRLF ++ B"ab" ++ B"GET") with
@@ -76,3 +105,6 @@ Print Assumptions C02_shape.
 Print Assumptions C02_malformed_shape.
 Print Assumptions C02_wellformed_delivered.
 Print Assumptions C02_transfer.
+Print Assumptions C02_delivered_wellformed.
+Print Assumptions C02_accept_iff.
+Print Assumptions C02_line_inversion.
